@@ -1342,6 +1342,9 @@ class Engine:
             if len(items) != n:
                 raise Unsupported('unpack arity')
             return list(items)
+        if isinstance(value, Obj):
+            # record-like element of an abstract collection: components live at <path>.f<k>
+            return [st.load(value.path + '.f%d' % k) for k in range(n)]
         raise Unsupported('cannot unpack %r' % (value,))
 
     def augassign(self, target, op, v, st):
@@ -2292,6 +2295,9 @@ class Engine:
             if isinstance(a, ast.Starred):
                 v = self.ev(a.value, st)
                 if not isinstance(v, tuple):
+                    if getattr(self.c, 'star_ok', False):
+                        args.append(('star', v))      # handed to the callee's contract as one opaque argument pack
+                        continue
                     raise Unsupported('star-args of a non-tuple')
                 args.extend(v)
             else:
